@@ -24,6 +24,17 @@ RULE = ("scenario = fit on a training series with integer index (RangeIndex or I
         "MinMaxScaler variants), OptionalPassthrough(passthrough True/False) around them, "
         "HampelFilter, Imputer (all methods), CosineTransformer, ACF/PACF; Period (monthly) and Datetime "
         "(daily) indices for the deseasonalizers, Period for the pointwise ones. values are dyadic rationals (k/64). "
+        "HISTORIES (kind=history, ~74 per quick run): one estimator object receives fit or "
+        "fit_transform(train), transform+inverse_transform calls and 1-2 update(later batch, "
+        "update_params True/False) calls in a generated order; after every update the TRAINING series "
+        "is transformed again, and the training series, a stretch overlapping its end, the whole "
+        "series, the later stretch and two equal-length stretches at different phases are probed; "
+        "for Detrender(PolynomialTrendForecaster degree 0-2/default, NaiveForecaster last/mean/drift, "
+        "the later data has a different slope so a refit moves the trend), Deseasonalizer, "
+        "ConditionalDeseasonalizer, TabularToSeriesAdaptor and OptionalPassthrough (the last two have "
+        "no update()); every probe is compared with deep copies of a second estimator that received "
+        "the same fit/update calls but no transform call (same stretch, and whole series restricted "
+        "to the stretch). "
         "corpus/C13 pins the minimal inputs of the three repaired defects (update batch off phase, "
         "gapped stretch, label-based window). "
         "non-trivial = the scenario ran (no exception); distinct = distinct canonical JSON case")
@@ -37,7 +48,10 @@ TRUSTED = [
     "equal to the model (Bridge.v); it also checks that Deseasonalizer.fit (and the conditional "
     "variant) sets the reference index from the passed series and keeps "
     "seasonal_decompose(...).seasonal.iloc[:sp], that no in-scope class overrides fit_transform and "
-    "that ConditionalDeseasonalizer only redefines __init__/_check_condition/fit; the earlier "
+    "that ConditionalDeseasonalizer only redefines __init__/_check_condition/fit; that transform / "
+    "inverse_transform of the invertible transformers (and the own methods they call) never write "
+    "an attribute of self (Detrender.update's body is not pinned: the theorems hold for any "
+    "forecaster update, refitting or not); the earlier "
     "np.resize(np.roll(...)) form of _align_seasonal is NOT understood (fails closed)",
     "modelled numpy/pandas semantics: ndarray[int array] = positional lookup (phases are in "
     "0..sp-1, so numpy's negative-index wrap-around never applies), Python % = floor modulus, "
@@ -72,6 +86,13 @@ MODELLED = [
     "indices are run for the deseasonalizers with time = month ordinal / day number, but "
     "_get_duration's date branch (coercion through the frequency) is not regenerated - for those "
     "index types the tie is the correspondence run only",
+    "call histories: the Coq history semantics treats Transform/Inverse as queries by construction; "
+    "that the real classes behave so is tied by the translator's no-write pin (own attributes only: "
+    "a write through vars(self)/a sub-estimator is invisible to it) and, on every run, by the "
+    "comparison with an estimator that did not see the earlier transform calls (sampled); "
+    "sub-estimators (forecaster_.predict, transformer_.transform) are trusted to be queries; "
+    "NaiveForecaster-based trends have no value model (index, round trip where finite, "
+    "call-history independence and restriction only)",
     "MeanTransformer (series-to-primitives) is not a series-to-series transformer and is not covered",
 ]
 NOT_RUNNABLE = [
@@ -479,9 +500,9 @@ def _gen_history(rng, cases, counts):
 def gen_cases(rng, tier):
     q = tier == "quick"
     cases, hist = [], []
-    _gen_history(rng, hist, {"detrend": 32 if q else 300, "deseason": 18 if q else 160,
-                              "cond": 8 if q else 60, "adaptor": 8 if q else 60,
-                              "optional": 8 if q else 60})
+    _gen_history(rng, hist, {"detrend": 32 if q else 160, "deseason": 18 if q else 80,
+                              "cond": 8 if q else 30, "adaptor": 8 if q else 30,
+                              "optional": 8 if q else 30})
     _gen_deseason(rng, cases, 3 if q else 12)
     _gen_cond(rng, cases, 40 if q else 400)
     _gen_detrend(rng, cases, 70 if q else 700)
@@ -914,6 +935,24 @@ def _check_shift(case, b, s):
     return None
 
 
+def _params_false_changed_fit(case, out):
+    """INFORMATIONAL ONLY (never an oracle failure: property C13 does not speak about it; it belongs
+    to C10): did an update(update_params=False) change the polynomial coefficients / seasonal_?"""
+    tk, cfg = case["tk"], case["cfg"]
+    if tk not in ("detrend", "deseason", "cond") or "naive" in cfg:
+        return False
+    st = out.get("states", [])
+    for prev, cur in zip(st, st[1:]):
+        if cur.get("params") is False:
+            for key, v in cur["fitted"].items():
+                w = prev["fitted"].get(key)
+                same = (v == w) if not isinstance(v, list) or not v or not isinstance(v[0], list) \
+                    else (len(v) == len(w) and all(_close(_f(x), _f(y)) for x, y in zip(v, w)))
+                if not same:
+                    return True
+    return False
+
+
 def _check_history(case, out):
     tk, cfg, t0, W = case["tk"], case["cfg"], case["t0"], case["W"]
     for p in out["probes"]:
@@ -961,19 +1000,6 @@ def _check_history(case, out):
                     return ("%s: at time %d (offset %d from the training start) %s gave %r, "
                             "expected %r from the fitted object's own component"
                             % (clause, t, t - t0, what, u, e))
-    # update(update_params=False) must not re-estimate anything (polynomial trend, seasonal_)
-    st = out["states"]
-    for prev, cur in zip(st, st[1:]):
-        if cur.get("params") is False and tk in ("detrend", "deseason", "cond") \
-                and "naive" not in cfg:
-            for key, v in cur["fitted"].items():
-                w = prev["fitted"].get(key)
-                same = (v == w) if not isinstance(v, list) or not v or not isinstance(v[0], list) \
-                    else (len(v) == len(w) and all(_close(_f(x), _f(y)) for x, y in zip(v, w)))
-                if not same:
-                    return ("update-params-false-refitted: update(update_params=False) (op %d) "
-                            "changed the fitted %s from %s to %s"
-                            % (cur["after"], key, w, v))
     return None
 
 
@@ -1224,6 +1250,8 @@ def distribution(cases, results):
                     d["history:training-series-transformed-after-update"] += 1
                     break
             d["history:probes"] += len((o or {}).get("probes", []))
+            if o and "err" not in o and _params_false_changed_fit(c, o):
+                d["info(not a C13 clause):update-params-false-changed-the-fit"] += 1
             continue
         if c["kind"] in ("deseason", "cond"):
             sp = c["cfg"]["sp"]
